@@ -487,6 +487,18 @@ func staleListed(run int, c cfg, cl mpx.Client, startServer func(), held *sync.M
 			return
 		}
 	}
+	// the open connection reaches its channel target while the closed one is still listed: the list is then as long as it
+	// was, and whether one more connection may be opened is decided on that length (the event goes into the trace)
+	if other != nil {
+		for k := 0; k < c.Target; k++ {
+			ctx := async.TimeoutContext(300 * time.Millisecond)
+			if ch, st := other.Channel(ctx); st.OK() {
+				ch.Send(ctx, []byte("hold"))
+				held.Store(ch, true)
+			}
+		}
+		time.Sleep(3 * time.Millisecond)
+	}
 }
 
 func main() {
